@@ -3354,6 +3354,7 @@ def cartesian(
                     parameters=parameters,
                     with_name=None,  # already set: see above
                     highlevel=False,
+                    behavior=behavior,
                 )
             )
 
